@@ -28,6 +28,7 @@ def gen_cases(rng: random.Random, quick: bool) -> list[dict]:
         cases.append({"name": f"diamond-b1-b2-failstop-seed{seed}", "shape": {"kind": "diamond"}, "plan": plan, "max_retries": 8,
                       "trace_fm": True, "lseed": seed})
     cases += gated_cases(quick)
+    cases += deep_cases(quick)
     refs = {}
     for c in list(cases):
         key = json.dumps(c["shape"], sort_keys=True)
@@ -51,6 +52,29 @@ def gated_cases(quick: bool) -> list[dict]:
                         "gates": [{"job": "/b2/0", "attempt": 1, "wait": f"a-{mark}-again", "timeout": 60},
                                   {"job": "/a/0", "attempt": 2, "phase": phase, "signal": f"a-{mark}-again", "wait": "synced:/b2/0", "timeout": 60}],
                         "expect_attempts": {"/a/0": 2, "/b1/0": 2, "/b2/0": 2, "/c/0": 1}})
+    return out
+
+
+def deep_cases(quick: bool) -> list[dict]:
+    """two NESTED shared ancestors (a -> m -> b_i), both lost with every failure, >= 2 concurrent failures. The list of requests a recovery
+    walks in `_synchronize_workflows` comes from a set of job names (arbitrary order): `sync_order` fixes it to downstream-first (attach to
+    m before a: attaching to m prunes a's job token from the token graph) and to upstream-first, so both orders run on every seed."""
+    out = []
+    orders = {"downstream-first": lambda names: sorted(names, key=lambda n: {"/a": 2, "/m": 1}.get(n.rsplit("/", 1)[0], 0)),
+              "upstream-first": lambda names: sorted(names, key=lambda n: {"/a": 0, "/m": 1}.get(n.rsplit("/", 1)[0], 2))}
+    for oname, order in orders.items():
+        names = ["/a/0", "/m/0", "/b1/0", "/b2/0"]
+        out.append({"name": f"deep-diamond-b1-b2-failstop-{oname}", "shape": {"kind": "diamond", "deep": True}, "max_retries": 8,
+                    "trace_fm": True, "lseed": None, "sync_order": order(names),
+                    "plan": [{"step": st, "tag": "0", "phase": "execute", "kind": "failstop", "count": 1,
+                              "lose": [[st, "0"], ["/m", "0"], ["/a", "0"]]} for st in ("/b1", "/b2")]})
+    for m, els in ([(3, [0, 2])] if quick else [(3, [0, 2]), (4, [0, 1, 3]), (5, [1, 2, 3, 4])]):
+        for oname, order in orders.items():
+            names = ["/a/0", "/m/0"] + [f"/b/0.{i}" for i in range(m)]
+            out.append({"name": f"deep-scatter{m}-failstop{els}-{oname}", "shape": {"kind": "scatter", "m": m, "deep": True}, "max_retries": 8,
+                        "trace_fm": True, "lseed": None, "sync_order": order(names),
+                        "plan": [{"step": "/b", "tag": f"0.{i}", "phase": "execute", "kind": "failstop", "count": 1,
+                                  "lose": [["/b", f"0.{i}"], ["/m", "0"], ["/a", "0"]]} for i in els]})
     return out
 
 
@@ -97,7 +121,15 @@ def judge(case: dict, r: dict, ref: dict | None) -> list[tuple[str, str]]:
     fails = []
     name = case["name"]
     if r["outcome"] != "ok":
-        fails.append((f"run:{r['outcome']}", f"{name}: {r.get('msg', '')[:300]}"))
+        claims: dict = {}
+        for kind, job in r.get("timeline", []):
+            if kind == "claim":
+                claims[job] = claims.get(job, 0) + 1
+        fails.append((f"run:{r['outcome']}", f"{name}: {r.get('msg', '')[:300]}; injected failures {[j for j, _, _ in r.get('injected', [])]}, "
+                                             f"roll-backs per job {claims}, executions {r.get('attempts')}"))
+        bad = inflight_claims(r.get("timeline", []))
+        if bad:
+            fails.append((K_INFLIGHT, f"{name}: rolled back again while its re-execution was under way: {bad}"))
         return fails
     if ref is not None and ref.get("outcome") == "ok" and ref["outputs"] != r["outputs"]:
         fails.append(("outputs-differ-from-failure-free-run", f"{name}"))
@@ -150,7 +182,8 @@ class C19(Property):
             "checked for consistency. Forced interleavings (event gates in the harness's command / schedule step): a second consumer fails exactly "
             "while the shared producer's re-execution is RUNNING resp. FIREABLE; no claim of a job may fall between an earlier claim of it and the "
             "end of the execution that claim started. T: the status tuple of is_recovering is generated and proved to cover ROLLBACK, FIREABLE, "
-            "RUNNING and to exclude settled statuses.")
+            "RUNNING and to exclude settled statuses. Deep shapes: two nested shared ancestors (a -> m -> b_i) lost by 2..4 concurrent failures, "
+            "with the (set-ordered, hence arbitrary) request list of _synchronize_workflows fixed to downstream-first and to upstream-first.")
     trusted_base = ["recovery harness harness/sfv/rt/recov.py (own injectors, failure-manager wrappers installed at run time on the instance)",
                     "translator harness/sfv/translate/recoverguard.py (Status enumeration, status tuple of is_recovering)",
                     "the status sequence claim -> ROLLBACK -> FIREABLE -> RUNNING -> COMPLETED/failed of the status-refined claim model is read off "
